@@ -72,58 +72,77 @@ func caller(repo, root, tmp string) int {
 		os.MkdirAll(odir, 0o755)
 		os.WriteFile(filepath.Join(odir, "orig.go"), []byte(orig), 0o644)
 
-		res := map[string]interface{}{"ip": ip}
-		fsetA := token.NewFileSet()
-		filesA, err := build.VerifC12ParseAndAugment(xctx, ip, odir, []string{"orig.go"}, false, fsetA)
-		if err != nil {
-			res["error"] = err.Error()
-			enc.Encode(res)
-			continue
-		}
-		a := printFiles(fsetA, filesA)
+		res := seqCompare(xctx, dir, ip, odir, []string{"orig.go"})
+		enc.Encode(res)
+	}
+	return 0
+}
 
-		fsetB := token.NewFileSet()
-		var ovs, origs []*ast.File
-		bad := false
-		for _, f := range filesA {
-			name := filepath.Base(fsetA.Position(f.Package).Filename)
-			if strings.HasPrefix(name, "gopherjs__") {
-				src, err := os.ReadFile(filepath.Join(dir, strings.TrimPrefix(name, "gopherjs__")))
-				if err != nil {
-					bad = true
-					break
-				}
-				pf, err := parser.ParseFile(fsetB, filepath.Join(odir, name), src, parser.ParseComments)
-				if err != nil {
-					bad = true
-					break
-				}
-				ovs = append(ovs, pf)
+// seqCompare runs the real parseAndAugment for import path ip (overlays = natives of ip, found in ovDir; originals =
+// the given files of odir) and the hook sequence on the same files, and compares the printed results.
+func seqCompare(xctx build.XContext, ovDir, ip, odir string, origFiles []string) map[string]interface{} {
+	res := map[string]interface{}{"ip": ip}
+	fsetA := token.NewFileSet()
+	filesA, err := build.VerifC12ParseAndAugment(xctx, ip, odir, origFiles, false, fsetA)
+	if err != nil {
+		res["error"] = err.Error()
+		return res
+	}
+	a := printFiles(fsetA, filesA)
+	fsetB := token.NewFileSet()
+	var ovs, origs []*ast.File
+	for _, f := range filesA {
+		name := filepath.Base(fsetA.Position(f.Package).Filename)
+		if strings.HasPrefix(name, "gopherjs__") {
+			src, err := os.ReadFile(filepath.Join(ovDir, strings.TrimPrefix(name, "gopherjs__")))
+			if err != nil {
+				res["error"] = "cannot re-read overlay file " + name
+				return res
 			}
+			pf, err := parser.ParseFile(fsetB, filepath.Join(odir, name), src, parser.ParseComments)
+			if err != nil {
+				res["error"] = "overlay does not parse: " + err.Error()
+				return res
+			}
+			ovs = append(ovs, pf)
 		}
-		if bad {
-			res["error"] = "cannot re-read overlay files"
-			enc.Encode(res)
-			continue
-		}
-		pf, err := parser.ParseFile(fsetB, filepath.Join(odir, "orig.go"), orig, parser.ParseComments)
+	}
+	for _, of := range origFiles {
+		pf, err := parser.ParseFile(fsetB, filepath.Join(odir, of), nil, parser.ParseComments)
 		if err != nil {
-			res["error"] = "synthetic original does not parse: " + err.Error()
-			enc.Encode(res)
-			continue
+			res["error"] = "original does not parse: " + err.Error()
+			return res
 		}
 		origs = append(origs, pf)
-		merged, _ := build.VerifC12Augment(ip, ovs, origs)
-		b := printFiles(fsetB, merged)
-		res["overlays"] = len(ovs)
-		res["same"] = strings.Join(a, "\n====\n") == strings.Join(b, "\n====\n")
-		if res["same"] == false {
-			res["a"] = a
-			res["b"] = b
+	}
+	merged, _ := build.VerifC12Augment(ip, ovs, origs)
+	b := printFiles(fsetB, merged)
+	res["overlays"] = len(ovs)
+	res["same"] = strings.Join(a, "\n====\n") == strings.Join(b, "\n====\n")
+	res["a"] = a
+	if res["same"] == false {
+		res["b"] = b
+	}
+	return res
+}
+
+// callergen: the same comparison for generated pairs whose overlays were written into the natives tree of the
+// repo copy this binary was built against. stdin: JSON lines {"ip","dir","files"}.
+func callergen(repo string) int {
+	gopherjspkg.RegisterFS(http.FS(os.DirFS(repo)))
+	xctx := build.NewBuildContext("", nil)
+	dec := json.NewDecoder(os.Stdin)
+	enc := json.NewEncoder(os.Stdout)
+	for dec.More() {
+		var req struct {
+			IP    string   `json:"ip"`
+			Dir   string   `json:"dir"`
+			Files []string `json:"files"`
 		}
-		hasInit := strings.Contains(strings.Join(b, "\n"), "func init()") && len(ovs) > 0
-		res["has_init"] = hasInit
-		enc.Encode(res)
+		if err := dec.Decode(&req); err != nil {
+			return 2
+		}
+		enc.Encode(seqCompare(xctx, filepath.Join(repo, "compiler", "natives", "src", filepath.FromSlash(req.IP)), req.IP, req.Dir, req.Files))
 	}
 	return 0
 }
